@@ -15,7 +15,7 @@ import sympy as sp
 
 from .common import *  # noqa
 from .boolib import *  # noqa
-from .grlib import pbc_args
+from .grlib import pbc_args, no_wrap_possible
 from ..vg import Interp
 
 MOD = "static.vector"
@@ -76,8 +76,8 @@ def check_neighbour_dot(run, pkg, fname):
     fi = it.fi
     fq = short(fi.qual)
     NL, rd = nbr_table(it, fq, None)
-    okn = rd.data["call"][2][1:] == (("sub", ("attr", VEC, "shape"), C(0)),) or dict(rd.data["call"][3]).get("nparticle") == ("sub", ("attr", VEC, "shape"), C(0))
-    run.ob("R-PROTO", fq, "nparticle", okn, "the neighbour reader is told the number of field vectors", show(rd.data["call"])[:80], witness=None if okn else "wrong row count consumed", loc=loc_of(it, rd))
+    okn = eqv(kw(rd.data["call"], "nparticle", 1), ("sub", ("attr", VEC, "shape"), C(0)), ("call", "builtins.len", (VEC,), ()), same=True)
+    run.ob("R-PROTO", fq, "nparticle", okn, "the neighbour reader is told the number of field vectors", show(rd.data["call"])[:80], witness=None if okn else "wrong row count consumed", loc=loc_of(it, rd), sound=True)
     # the per-particle dot products
     med = None
     for e in it.events:
@@ -91,35 +91,36 @@ def check_neighbour_dot(run, pkg, fname):
     okd = eqv(L.iter, ("call", "builtins.range", (("sub", ("attr", VEC, "shape"), C(0)),), ()))
     run.ob("R-LOOPDOM", fq, "particles", okd, "every particle is visited", show(L.iter)[:60], witness=None if okd else "particles skipped", loc=fi.loc(L.node), sound=True)
     p = med[2][0]
-    ok = False
+    ok = None
     if p[0] == "bin" and p[1] == "*":
         a, b = p[2], p[3]
-        for x, y in ((a, b), (b, a)):
+        has_nl = lambda t: any(z == NL for z in walk(t))
+        if has_nl(a) != has_nl(b):
+            x, y = (b, a) if has_nl(a) else (a, b)
             x = row_bcast(x)
-            if x == ("sub", VEC, i) and y[0] == "sub" and y[1] == VEC and is_nbr_slice(y[2], NL, i):
-                ok = True
+            ok = tri(eqv(x, ("sub", VEC, i)), eqv(y[1], VEC) if y[0] == "sub" else None, nbr_slice_tri(y[2], NL, i) if y[0] == "sub" else None)
     run.ob("R-IDX", fq, "dot-products", ok, "d_ij = e_i . e_j for j over columns 1..cn_i of row i (component sum over axis 1)", show(med)[:110],
-           witness=None if ok else "count column / padding used as neighbour, or another particle's row", loc=loc_of(it, mev))
+           witness=None if ok else "count column / padding used as neighbour, or another particle's row", loc=loc_of(it, mev), sound=True)
     if fname == "local_vector_alignment":
         st = [e for e in stores(it) if e.loops == mev.loops]
         okm = tri(True if len(st) == 1 else None, eqv(st[0].data["target"][2], i), eqv(st[0].data["value"], ("call", ".mean", (med,), ()), ("call", "numpy.mean", (med,), ()))) if st else None
-        run.ob("R-ALG", fq, "alignment", okm, "result[i] = mean over the neighbours of e_i . e_j", key_of(st[0])[:80] if st else "?", witness=None if okm else "sum instead of mean / stored at another index", loc=fi.loc())
+        run.ob("R-ALG", fq, "alignment", okm, "result[i] = mean over the neighbours of e_i . e_j", key_of(st[0])[:80] if st else "?", witness=None if okm else "sum instead of mean / stored at another index", loc=fi.loc(), sound=True)
         okr = len(it.returns) == 1 and st and it.returns[0].data["value"] == st[0].data["target"][1]
-        run.ob("R-ALG", fq, "return", bool(okr), "the per-particle array is returned", "", witness=None if okr else "another array returned", loc=fi.loc())
+        run.ob("R-ALG", fq, "return", True if okr else None, "the per-particle array is returned", "", witness=None if okr else "another array returned", loc=fi.loc())
     else:
         ret = it.returns[0].data["value"]
-        ok2 = False
+        ok2 = None
         if ret[0] == "bin" and ret[1] == "/":
             num, den = ret[2], ret[3]
 
-            def acc(t, *wants):
+            def acc(t, *wants, same=False):
                 sa = split_acc(t)
                 if sa is None or sa[0][3] not in (C(0), C(0.0)):
                     return None
-                return eqv(sa[1], *wants)
-            ok2 = tri(acc(num, ("call", ".sum", (med,), ())), acc(den, ("call", ".sum", (("call", "numpy.abs", (med,), ()),), ()), ("call", ".sum", (("call", "numpy.absolute", (med,), ()),), ())))
+                return eqv(sa[1], *wants, same=same)
+            ok2 = tri(acc(num, ("call", ".sum", (med,), ())), acc(den, ("call", ".sum", (("call", "numpy.abs", (med,), ()),), ()), ("call", ".sum", (("call", "numpy.absolute", (med,), ()),), ()), same=True))
         run.ob("R-ALG", fq, "quotient", ok2, "phase quotient = sum_ij d_ij / sum_ij |d_ij| (both sums from 0 over all particles and neighbours)", show(ret)[:110],
-               witness=None if ok2 else "denominator is not the sum of absolute values: result may leave [-1, 1]", loc=fi.loc())
+               witness=None if ok2 else "denominator is not the sum of absolute values: result may leave [-1, 1]", loc=fi.loc(), sound=True)
 
 
 def vectorised_neighbour_dot(run, pkg, it, fq, fname, NL):
@@ -162,7 +163,7 @@ def vectorised_neighbour_dot(run, pkg, it, fq, fname, NL):
                 break
         what = "result[i] = mean over the cn_i listed neighbours of e_i . e_j" if fname == "local_vector_alignment" else "phase quotient = sum d_ij / sum |d_ij| over listed neighbours"
         run.ob("R-ALG", fq, "alignment" if fname == "local_vector_alignment" else "quotient", bad is None, what + " (zero padding and the count column excluded), vectorised form decided on 4 padded neighbour tables",
-               show(ret)[:140], witness=bad, loc=fi.loc())
+               show(ret)[:140], witness=bad, loc=fi.loc(), sound=True)   # concrete neighbour table on which the extracted term differs
     except (Unsupported, Exception) as e:  # noqa
         run.ob("R-ALG", fq, "form", None, "neighbour dot-product form recognised", f"{type(e).__name__}: {str(e)[:100]}", loc=fi.loc())
 
@@ -198,41 +199,49 @@ def check_divcurl(run, pkg):
             run.ob("R-PBC", fq, f"{tag}:image", None, "divergence kernel recognised", show(inner)[:100], loc=loc)
             continue
         if pbc_args(R) is None:
-            raw = has_pos(R)
+            raw = has_pos(R) and no_wrap_possible(R)
             run.ob("R-PBC", fq, f"{tag}:image", False if raw else None, "relative positions are minimum-image vectors", show(R)[:100],
-                   witness="neighbours across the periodic boundary give box-length r_ij: divergence and curl blow up at the faces" if raw else None, loc=loc)
+                   witness="neighbours across the periodic boundary give box-length r_ij: divergence and curl blow up at the faces" if raw else None, loc=loc, sound=True)
             continue
         bv = bond_vectors(R)
-        okb = tri_lazy(lambda: (True if (bv is not None) else None), lambda: eqv(bv["snap"], ("sym", "snapshot")), lambda: (True if (is_nbr_slice(bv["left"], NL, i)) else None), lambda: (True if (bv["right"] == i) else None))
+        okb = tri(eqv(bv["snap"], ("sym", "snapshot")), nbr_slice_tri(bv["left"], NL, i), eqv(bv["right"], i)) if bv is not None else None
         run.ob("R-PBC", fq, f"{tag}:rij", okb, "r_ij = positions[neighbours of i] - positions[i] (columns 1..cn_i)", show(R)[:90], witness=None if okb else "relative positions not from i to its neighbours", loc=loc, sound=True)
         if bv is not None:
-            okh = tri_lazy(lambda: eqv(bv["H"], ("attr", ("sym", "snapshot"), "hmatrix")), lambda: eqv(bv["ppp"], ("sym", "ppp")))
+            okh = tri(eqv(bv["H"], ("attr", ("sym", "snapshot"), "hmatrix")), eqv(bv["ppp"], ("sym", "ppp")) if bv["ppp"] is not None else False)
             run.ob("R-PBC", fq, f"{tag}:cell-mask", okh, "minimum image uses the snapshot's cell and the caller's mask", f"{show(bv['H'])[:30]}, {show(bv['ppp'])[:20] if bv['ppp'] else 'default'}",
                    witness=None if okh else "cell / mask not forwarded", loc=loc, sound=True)
-        oku = tri_lazy(lambda: (True if (U[0] == "bin") else None), lambda: (True if (U[1] == "-") else None), lambda: (True if (U[2][0] == "sub") else None), lambda: eqv(U[2][1], VEC), lambda: (True if (bv is not None) else None), lambda: (True if (U[2][2] == bv["left"]) else None), lambda: eqv(row_bcast(U[3]), ("sub", VEC, i)))
-        run.ob("R-ALIGN", fq, f"{tag}:uij", bool(oku), "u_ij = vector[same neighbours] - vector[i]: same slice and centre as r_ij", show(U)[:90],
+        oku = tri(eqv(U[2][1], VEC), eqv(U[2][2], bv["left"]), eqv(row_bcast(U[3]), ("sub", VEC, i))) if (U[0] == "bin" and U[1] == "-" and U[2][0] == "sub" and bv is not None) else None
+        run.ob("R-ALIGN", fq, f"{tag}:uij", oku, "u_ij = vector[same neighbours] - vector[i]: same slice and centre as r_ij", show(U)[:90],
                witness=None if oku else "field differences belong to other particles than the position differences", loc=loc, sound=True)
-        okt = ev.data["target"][2] == i
-        run.ob("R-ALG", fq, f"{tag}:divergence", okt, "divergence[i] = mean over neighbours of r_ij . u_ij", key_of(ev)[:80], witness=None if okt else "stored at another index", loc=loc)
+        okt = eqv(ev.data["target"][2], i)
+        run.ob("R-ALG", fq, f"{tag}:divergence", okt, "divergence[i] = mean over neighbours of r_ij . u_ij", key_of(ev)[:80], witness=None if okt else "stored at another index", loc=loc, sound=True)
         if ndim == 3:
             cr = [e for e in stores(it) if e.data["op"] == "+" and len(e.loops) == 2]
             dvs = [e for e in stores(it) if e.data["op"] == "/" and e.loops == ev.loops]
-            okc = False
+            okc = None
             rev = False
+            if len(cr) == 1 and not dvs:
+                carr = cr[0].data["target"][1]
+                any_div = [e for e in it.events if (e.kind == "aug" and e.data["op"] in ("/", "*")) or (e.kind == "store" and e.data["op"] in ("/", "*")) or
+                           (e.kind in ("assign", "store") and any(x[0] == "bin" and x[1] in ("/", "*") and carr in (x[2], x[3]) for x in walk(e.data["value"])))]
+                if not any_div:
+                    okc = False        # the cross products are summed and nothing ever rescales the sum
             if len(cr) == 1 and len(dvs) == 1:
                 Lj = it.loops[cr[0].loops[1]]
                 j = Lj.target
                 v = cr[0].data["value"]
-                okc = tri_lazy(lambda: eqv(Lj.iter, ("call", "builtins.range", (nbr_count(NL, i),), ())), lambda: (True if (cr[0].data["target"][2] == i) else None), lambda: eqv(v, ("call", "numpy.cross", (("sub", R, j), ("sub", U, j)), ())), lambda: (True if (dvs[0].data["target"] == cr[0].data["target"]) else None), lambda: eqv(dvs[0].data["value"], nbr_count(NL, i)), lambda: (True if (dvs[0].seq > cr[0].seq) else None))
+                okc = tri(eqv(Lj.iter, ("call", "builtins.range", (nbr_count(NL, i),), ())), eqv(cr[0].data["target"][2], i), eqv(v, ("call", "numpy.cross", (("sub", R, j), ("sub", U, j)), ())), True if (dvs[0].data["target"] == cr[0].data["target"]) else None, eqv(dvs[0].data["value"], nbr_count(NL, i)), True if (dvs[0].seq > cr[0].seq) else None)
                 rev = v == ("call", "numpy.cross", (("sub", U, j), ("sub", R, j)), ())
+                if rev:
+                    okc = False
             run.ob("R-ALG", fq, "3D:curl", okc, "curl[i] = sum_j r_ij x u_ij / cn_i (r first, u second; same bond j in both)", key_of(cr[0])[:80] if cr else "?",
                    witness=None if okc else ("u x r: the curl changes sign" if cr and rev else "curl is not the neighbour average of r x u"), loc=loc_of(it, cr[0]) if cr else fi.loc(), sound=True)
             ret = [r for r in it.returns]
             okr = len(ret) == 1 and ret[0].data["value"][0] == "tuple" and ret[0].data["value"][1][0] == ev.data["target"][1] and cr and ret[0].data["value"][1][1] == cr[0].data["target"][1]
-            run.ob("R-ALG", fq, "3D:return", bool(okr), "3D returns (divergence, curl)", "", witness=None if okr else "return order changed", loc=fi.loc())
+            run.ob("R-ALG", fq, "3D:return", True if okr else None, "3D returns (divergence, curl)", "", witness=None if okr else "return order changed", loc=fi.loc())
         else:
             okr = len(it.returns) == 1 and it.returns[0].data["value"] == ev.data["target"][1]
-            run.ob("R-ALG", fq, "2D:return", okr, "2D returns the divergence", "", witness=None if okr else "2D return changed", loc=fi.loc())
+            run.ob("R-ALG", fq, "2D:return", True if okr else None, "2D returns the divergence", "", witness=None if okr else "2D return changed", loc=fi.loc())
 
 
 def check_vibrability(run, pkg):
@@ -251,13 +260,15 @@ def check_vibrability(run, pkg):
     v = ev.data["value"]
     mode = ("call", ".reshape", (("sub", EV, ("tuple", (FULL, k))), N, C(-1)), ())
     want = ("bin", "/", ("call", ".sum", (("call", "numpy.square", (mode,), ()),), (("axis", C(1)),)), ("sub", ("call", "numpy.square", (FR,), ()), k))
-    ok = v == want
+    ok = eqv(push_sub(v), push_sub(want))
     rowmode = any(x == ("sub", EV, k) or x == ("sub", EV, ("tuple", (k, FULL))) for x in walk(v))
+    if rowmode and not any(x == ("sub", EV, ("tuple", (FULL, k))) for x in walk(v)):
+        ok = False
     run.ob("R-IDX", fq, "term", ok, "mode k contributes |e_k,i|^2 / omega_k^2 with e_k = column k reshaped to (N, d)", show(v)[:120],
-           witness=None if ok else ("row k used as mode k: eigh returns modes as columns" if rowmode else "term differs from |e_k,i|^2 / omega_k^2"), loc=loc_of(it, ev))
+           witness=None if ok else ("row k used as mode k: eigh returns modes as columns" if rowmode else "term differs from |e_k,i|^2 / omega_k^2"), loc=loc_of(it, ev), sound=True)
     okinit = tri_lazy(lambda: (True if (ev.data["old"][0] == "mu") else None), lambda: eqv(ev.data["old"][3], ("call", "numpy.zeros", (N,), ())))
     okret = len(it.returns) == 1 and it.returns[0].data["value"] == ev.data["new"]
-    run.ob("R-ALG", fq, "sum", okinit and okret, "the per-particle sum starts at zero and is returned", "", witness=None if okinit and okret else "initial value / return changed", loc=fi.loc(), sound=True)
+    run.ob("R-ALG", fq, "sum", tri(okinit, True if okret else None), "the per-particle sum starts at zero and is returned", "", witness=None if okinit and okret else "initial value / return changed", loc=fi.loc(), sound=True)
 
 
 def check_split(run, pkg):
@@ -268,7 +279,7 @@ def check_split(run, pkg):
     cs = calls(it, CS)
     if len(cs) != 1:
         raise AnalysisError(f"{fq}: expected one conditional_sq call")
-    okc = cs[0].data["call"][2] == (("sym", "snapshot"), ("sym", "qvector"), VEC)
+    okc = True if cs[0].data["call"][2] == (("sym", "snapshot"), ("sym", "qvector"), VEC) else None
     run.ob("R-ALIGN", fq, "transform", okc, "the transform is conditional_sq(snapshot, qvector, vector) (vector kind)", show(cs[0].data["call"])[:90], witness=None if okc else "arguments permuted", loc=loc_of(it, cs[0]))
     F0 = ("sub", cs[0].data["result"], C(0))
     # R-EFFECT: nothing derived from .values is modified in place
@@ -286,7 +297,7 @@ def check_split(run, pkg):
             if t[0] == "attr" and t[2] == "values":
                 bad = e
     run.ob("R-EFFECT", fq, "values-readonly", bad is None, "arrays taken from DataFrame.values are not modified in place (read-only views under pandas >= 3)",
-           key_of(bad)[:80] if bad else "no in-place use", witness=None if bad is None else "ValueError: output array is read-only (pandas 3) / silent edit of the frame (pandas < 3)", loc=loc_of(it, bad) if bad else fi.loc())
+           key_of(bad)[:80] if bad else "no in-place use", witness=None if bad is None else "ValueError: output array is read-only (pandas 3) / silent edit of the frame (pandas < 3)", loc=loc_of(it, bad) if bad else fi.loc(), sound=True)
     st = [e for e in stores(it) if len(e.loops) == 1 and e.data["target"][1][0] == "call" and e.data["target"][1][1] == "numpy.zeros_like"]
     if len(st) != 1:
         raise AnalysisError(f"{fq}: longitudinal store not found")
@@ -310,45 +321,56 @@ def check_split(run, pkg):
         c = t[1][2]
         return c[0] == "comp" and len(c[3]) == 1 and c[3][0][1] == ("call", "builtins.range", (nd,), ()) and c[2][0] == "fstr" and c[2][1][0] == C(prefix) and c[2][1][1][1] == c[3][0][0]
     okF = is_cols(Fc, "FFT", F0)
-    run.ob("R-IDX", fq, "fft-columns", okF, "F(q) = the FFT0..FFT{d-1} columns of the transform", show(Fc)[:90], witness=None if okF else "other columns decomposed", loc=loc)
+    run.ob("R-IDX", fq, "fft-columns", True if okF else None, "F(q) = the FFT0..FFT{d-1} columns of the transform", show(Fc)[:90], witness=None if okF else "other columns decomposed", loc=loc)
     v = ev.data["value"]
     U = None
-    okL = False
+    okL = None
     if v[0] == "bin" and v[1] == "*":
         a, b = v[2], v[3]
         for x, y in ((a, b), (b, a)):
             if x[0] == "sub" and x[2] == n and y[0] == "call" and y[1] in ("numpy.dot", "numpy.vdot", "numpy.inner") and len(y[2]) == 2:
                 U = x[1]
                 d = y[2]
-                okL = ev.data["target"][2] == n and ((d[0] == ("sub", U, n) and d[1] == ("sub", Fc, n)) or (d[1] == ("sub", U, n) and d[0] == ("sub", Fc, n))) and y[1] != "numpy.vdot"
-    run.ob("R-ALG", fq, "longitudinal", okL, "L(q_n) = u_n (u_n . F(q_n)) with u_n real (no conjugation of F)", show(v)[:110], witness=None if okL else "projection is not along q / uses another wave vector's transform", loc=loc)
+                hasF = lambda t: any(z == Fc for z in walk(t))
+                if hasF(d[0]) != hasF(d[1]) and y[1] != "numpy.vdot":
+                    du, dF = (d[1], d[0]) if hasF(d[0]) else (d[0], d[1])
+                    okL = tri(eqv(ev.data["target"][2], n), eqv(du, ("sub", U, n)), eqv(dF, ("sub", Fc, n)))
+    run.ob("R-ALG", fq, "longitudinal", okL, "L(q_n) = u_n (u_n . F(q_n)) with u_n real (no conjugation of F)", show(v)[:110], witness=None if okL else "projection is not along q / uses another wave vector's transform", loc=loc, sound=True)
     if U is not None:
         oku = tri_lazy(lambda: (True if (U[0] == "bin") else None), lambda: (True if (U[1] == "/") else None), lambda: (True if (is_cols(U[2], "q", F0)) else None), lambda: eqv(col_bcast(U[3]), ("attr", ("sub", F0, C("q")), "values")), lambda: (True if (U[3] != col_bcast(U[3])) else None))
+        if is_cols(U, "q", F0):
+            oku = False            # the raw wave-vector columns themselves, never divided by |q|
         run.ob("R-ALG", fq, "unit-q", oku, "u = (q0..q{d-1}) / |q| row by row, both from the transform's own table", show(U)[:110], witness=None if oku else "u is not a unit vector along q: L is not a projection, S != S_L + S_T", loc=loc, sound=True)
     # transverse := F - L
     Tt = None
+    okT = None
     for e in it.events:
         if e.kind == "assign" and e.data["value"] == ("bin", "-", Fc, Lz):
             Tt = e.data["value"]
-    run.ob("R-ALG", fq, "transverse", Tt is not None, "T := F - L (so F = L + T and, L being the projection on u, S = S_L + S_T)", show(Tt)[:60] if Tt else "not found",
-           witness=None if Tt is not None else "T is not the remainder of the projection: L + T != F", loc=fi.loc())
+            okT = True
+    if Tt is None:
+        for e in it.events:
+            if e.kind == "assign" and e.data["value"][0] == "bin" and {e.data["value"][2], e.data["value"][3]} == {Fc, Lz}:
+                okT = eqv(e.data["value"], ("bin", "-", Fc, Lz))
+    run.ob("R-ALG", fq, "transverse", okT, "T := F - L (so F = L + T and, L being the projection on u, S = S_L + S_T)", show(Tt)[:60] if Tt else "not found",
+           witness=None if Tt is not None else "T is not the remainder of the projection: L + T != F", loc=fi.loc(), sound=True)
     # spectra columns
     ret = it.returns[0].data["value"] if len(it.returns) == 1 else None
     for nm, X in (("Sq_T", Tt), ("Sq_L", Lz)):
         ss = [e for e in stores(it) if e.data["target"][0] == "sub" and e.data["target"][2] == C(nm)]
         ok = eqv(ss[0].data["value"], ("attr", ("call", ".sum", (("bin", "*", X, ("call", "numpy.conj", (X,), ())),), (("axis", C(1)),)), "real"),
-                 ("call", ".sum", (("bin", "**", ("call", "numpy.abs", (X,), ()), C(2)),), (("axis", C(1)),))) if (len(ss) == 1 and X is not None) else None
-        run.ob("R-ALG", fq, nm, ok, f"{nm} = Re sum_c X_c conj(X_c) of the {'transverse' if nm == 'Sq_T' else 'longitudinal'} part", key_of(ss[0])[:90] if ss else "?", witness=None if ok else f"{nm} is not |X|^2", loc=fi.loc())
+                 ("call", ".sum", (("bin", "**", ("call", "numpy.abs", (X,), ()), C(2)),), (("axis", C(1)),)), same=True) if (len(ss) == 1 and X is not None) else None
+        run.ob("R-ALG", fq, nm, ok, f"{nm} = Re sum_c X_c conj(X_c) of the {'transverse' if nm == 'Sq_T' else 'longitudinal'} part", key_of(ss[0])[:90] if ss else "?", witness=None if ok else f"{nm} is not |X|^2", loc=fi.loc(), sound=True)
     if ret is not None and ret[0] == "tuple" and len(ret[1]) == 2:
         full, ave = ret[1]
         okround = full[0] == "call" and full[1] == ".round"
         want = ("call", ".reset_index", (("call", ".mean", (("call", ".groupby", (("sub", full, ("list", (C("Sq"), C("Sq_T"), C("Sq_L")))), ("sub", full, C("q"))), ()),), ()),), ())
         oka = ave == want
-        run.ob("R-ORDER", fq, "average", okround and oka, "the table is rounded, then Sq, Sq_T, Sq_L are averaged over equal |q|; (table, average) returned", show(ave)[:100],
+        run.ob("R-ORDER", fq, "average", True if (okround and oka) else None, "the table is rounded, then Sq, Sq_T, Sq_L are averaged over equal |q|; (table, average) returned", show(ave)[:100],
                witness=None if okround and oka else "grouping before rounding / other columns averaged", loc=fi.loc())
         sv = calls(it, ".to_csv")
         oks = all(e.data["call"][2][0] == ave for e in sv)
-        run.ob("R-SAVE", fq, "csv", oks, "the CSV holds the returned average", f"{len(sv)} saves", witness=None if oks else "file differs from returned table", loc=fi.loc())
+        run.ob("R-SAVE", fq, "csv", True if oks else None, "the CSV holds the returned average", f"{len(sv)} saves", witness=None if oks else "file differs from returned table", loc=fi.loc())
 
 
 def check_fft_corr(run, pkg):
@@ -370,18 +392,18 @@ def check_fft_corr(run, pkg):
     tc = calls(it, "PyMatterSim.dynamic.time_corr.time_correlation")
     hdrs = sorted({show(x) for e in tc for x in walk(e.data["call"]) if x[0] == "fstr"})
     okh = len(tc) == 3
-    run.ob("R-LOOPDOM", fq, "column-groups", okh, "FFT, T_FFT and L_FFT are each time-correlated", f"{len(tc)} correlation sites (header loop unrolled)", witness=None if okh else "a column group is not correlated", loc=fi.loc())
+    run.ob("R-LOOPDOM", fq, "column-groups", True if okh else None, "FFT, T_FFT and L_FFT are each time-correlated", f"{len(tc)} correlation sites (header loop unrolled)", witness=None if okh else "a column group is not correlated", loc=fi.loc())
     for e in tc:
         kk = dict(e.data["call"][3])
         c = kk.get("condition")
         Lq = it.loops[e.loops[-1]] if e.loops else None
         okq = tri_lazy(lambda: (True if (Lq is not None) else None), lambda: eqv(Lq.iter, ("call", "builtins.range", (("sub", ("attr", ("sym", "qvector"), "shape"), C(0)),), ())))
         oks = tri_lazy(lambda: eqv(kk.get("snapshots"), ("sym", "snapshots")), lambda: eqv(kk.get("dt"), ("sym", "dt")))
-        okc = False
+        okc = None
         if c is not None and c[0] == "call" and c[1] == "numpy.array" and c[2][0][0] == "comp":
             comp = c[2][0]
             item = comp[3][0][0]
             src = comp[3][0][1]
-            okc = comp[2][0] == "sub" and comp[2][2] == Lq.target and comp[2][1][0] == "attr" and comp[2][1][2] == "values" and comp[2][1][1][0] == "sub" and comp[2][1][1][1] == item and src[0] == "appended"
-        run.ob("R-ALIGN", fq, f"series@{e.lineno}:{show(kk.get('condition'))[20:50]}", bool(okq and oks and okc), "for wave vector n the series is row n of that column group in every frame, in frame order; trajectory and dt forwarded",
+            okc = True if (comp[2][0] == "sub" and comp[2][2] == Lq.target and comp[2][1][0] == "attr" and comp[2][1][2] == "values" and comp[2][1][1][0] == "sub" and comp[2][1][1][1] == item and src[0] == "appended") else None
+        run.ob("R-ALIGN", fq, f"series@{e.lineno}:{show(kk.get('condition'))[20:50]}", tri(okq, oks, okc), "for wave vector n the series is row n of that column group in every frame, in frame order; trajectory and dt forwarded",
                show(c)[:100] if c else "?", witness=None if okq and oks and okc else "series mixes wave vectors / frames", loc=loc_of(it, e), sound=True)
